@@ -170,11 +170,20 @@ func H15_Core() {
 	p1, p2 := peers[0], peers[1]
 	box := newInbox("dtn://this/box")
 	c.RegisterApplicationAgent(box)
+	// an agent at the endpoint used as "report-to is this node": a report the node addressed to itself would show up here
+	repbox := newInbox("dtn://this/reports")
+	c.RegisterApplicationAgent(repbox)
 	settle()
 	fl := verif.U64("flags")
 	verif.Assume(fl&^uint64(bpv7.StatusRequestReception|bpv7.StatusRequestForward|bpv7.StatusRequestDelivery|bpv7.StatusRequestDeletion|bpv7.RequestStatusTime) == 0)
 	outcome := verif.Choose("outcome", 6)
+	if shards := verif.Param("shards", 1); shards > 1 {
+		verif.Assume(outcome%shards == verif.Param("shard", 0))
+	}
 	reportToSelf := verif.Bool("reporttoself")
+	// localSrc: the bundle is submitted by a local application (source is an endpoint of this node) instead of being
+	// received from peer 1; only for the outcomes that involve forwarding
+	localSrc := outcome >= 2 && outcome <= 4 && verif.Bool("localsrc")
 	dst := "dtn://far/inbox"
 	switch outcome {
 	case 0:
@@ -182,8 +191,15 @@ func H15_Core() {
 	case 1:
 		dst = "dtn://this/nobody"
 	}
-	bl := bpv7.Builder().Source("dtn://origin/app").Destination(dst).CreationTimestampNow().Lifetime("1h").PayloadBlock([]byte("data")).
-		PreviousNodeBlock(p1.peer).BundleCtrlFlags(bpv7.BundleControlFlags(fl))
+	src := "dtn://origin/app"
+	if localSrc {
+		src = "dtn://this/box"
+	}
+	bl := bpv7.Builder().Source(src).Destination(dst).CreationTimestampNow().Lifetime("1h").PayloadBlock([]byte("data")).
+		BundleCtrlFlags(bpv7.BundleControlFlags(fl))
+	if !localSrc {
+		bl = bl.PreviousNodeBlock(p1.peer)
+	}
 	if reportToSelf {
 		bl = bl.ReportTo("dtn://this/reports")
 	} else {
@@ -193,6 +209,9 @@ func H15_Core() {
 	switch outcome {
 	case 3:
 		p2.fail = true
+		if localSrc {
+			p1.fail = true
+		}
 	case 4:
 		bl = bl.Canonical(&bpv7.HopCountBlock{Limit: 3, Count: 3})
 	case 5:
@@ -201,7 +220,12 @@ func H15_Core() {
 	}
 	b, err := bl.Build()
 	verif.Assume(err == nil)
-	inject(p1, b)
+	if localSrc {
+		c.SendBundle(&b)
+		settle()
+	} else {
+		inject(p1, b)
+	}
 	// what happened
 	delivered := len(box.rx) > 0
 	var dataSends, okDataSends int
@@ -211,7 +235,7 @@ func H15_Core() {
 			if r.ok {
 				okDataSends++
 			}
-			verif.Assert(r.peer != p1.addr, "the bundle is not sent back to the peer it came from")
+			verif.Assert(localSrc || r.peer != p1.addr, "the bundle is not sent back to the peer it came from")
 		}
 	}
 	local := outcome == 0 || outcome == 1
@@ -224,10 +248,19 @@ func H15_Core() {
 		verif.Assert(dataSends == 0, "a refused bundle is not transmitted")
 		verif.Assert(!c.store.KnowsBundle(b.ID()), "a refused bundle is dropped from the store")
 	}
+	// no report when report-to is this node: nothing administrative reaches the local agent at that endpoint, and
+	// nothing administrative is stored or handed to a convergence layer
+	selfReports := 0
+	for len(repbox.rx) > 0 {
+		if bm, ok := (<-repbox.rx).(agent.BundleMessage); ok && bm.Bundle.IsAdministrativeRecord() {
+			selfReports++
+		}
+	}
+	verif.Assert(selfReports == 0, "no report is generated about a bundle whose report-to endpoint is this node")
 	// expected reports
 	want := map[bpv7.StatusInformationPos]bool{}
 	if !reportToSelf {
-		if fl&uint64(bpv7.StatusRequestReception) != 0 || (outcome == 5 && blockFlags&bpv7.StatusReportBlock != 0) {
+		if !localSrc && (fl&uint64(bpv7.StatusRequestReception) != 0 || (outcome == 5 && blockFlags&bpv7.StatusReportBlock != 0)) {
 			want[bpv7.ReceivedBundle] = true
 		}
 		if fl&uint64(bpv7.StatusRequestForward) != 0 && okDataSends > 0 {
